@@ -53,7 +53,7 @@ def get_mask_with_key_joins(data, key_joins, subset_state, view=None):
 
     for other, (cid1, cid2) in key_joins.items():
 
-        if getattr(other, '_recursing', False):
+        if other is data or getattr(other, '_recursing', False):
             continue
 
         try:
